@@ -38,7 +38,7 @@ PROVED = {
          'The hide() assertion clause is proved with the hiding development (C12) and is covered here differentially until then.'),
  'C08': ('Theorems C08_suffix / C08_accepted_suffix (octets after the declared end change nothing but the remaining input, for every accepted control message and data '
          'message with a length field), C08_ctrl_consumes_declared, C08_avps_concat / C08_avps_records (well-delimited records decode independently). On the Spec, '
-         'transported by C05. The statement about encoder-produced sequences needs the round trip (C03/C04) and is covered differentially (DECSEQ) until that lands.'),
+         'transported by C05. C08_back_to_back / C08_sequence: encoder-produced framed messages packed back to back decode one after another.'),
  'C09': ('Theorems C09_prefix_independent, C09_sequence, C09_overwrites_inside, C09_avp_overwrite: corollaries of the encoder refinement, including the overwrite log of the writer.'),
  'C14': ('Theorems C14_monotone, C14_reject_monotone, C14_version_exact, C14_reserved_exact, C14_unused_exact, C14_unused_data_inert, C14_bits_inert, C14_default on the Spec '
          '(transported by C05); the flag-word facts the refinement uses are proved for all 65536 words by vm_compute sweeps lifted with forallb_forall.'),
@@ -47,6 +47,10 @@ PROVED = {
  'C16': ('Theorems C16_message_type / error_type / proxy_authen_type / stop_ccn_code / cdn_code / attribute_types (exact acceptance sets over all of N), the five bijection theorems, '
          'C16_rfc_numbers, C16_dispatch_is_table, C16_result_code_raw; the correspondence sweeps all 65536 codes of each field through the implementation on every run.'),
  'C17': ('Theorems C17_constructor_accessors, C17_accessor_is_own_bit (for every word, via N.testbit lemmas), C17_distinct_bits, C17_raw_roundtrip.'),
+ 'C03': ('Theorems C03_ctrl_roundtrip / C03_avp_roundtrip (Model encoder then Model decoder under the strictest options returns the value with the length field set to the octets '
+         'emitted, for every wf_ctrl / wf_avp value: all 39 kinds and Hidden), C03_payload_roundtrip, C03_record_roundtrip (on the Spec).'),
+ 'C04': ('Theorems C04_data_roundtrip (for every option set) and C04_data_roundtrip_spec over wf_data: 16 flag combinations, length absent or exact, offset n <= |data|-1; the decoded '
+         'value reports no offset and the payload without its first n octets.'),
 }
 for pid, txt in PROVED.items():
     META[pid] = P('proof', txt, 'DESIGN.md section 7 (%s)' % pid, PROOF_TECH, CORR)
